@@ -15,7 +15,8 @@
                       <<"C", 0, <<>>>>    CHANNEL_CLOSE
    Events  write    S's application writes ev.n bytes to stream ev.s   (sent = messages S emitted)
            close    S's application calls loseConnection
-           sdeliver the oldest R->S message ev.m is delivered to S
+           sdeliver the oldest R->S message ev.m is delivered to S; ev.hook = <<>> or the application call
+                    <<"write", s, n>> / <<"close", 0, 0>> made re-entrantly from S's startWriting() callback
            rdeliver the oldest S->R message ev.m is delivered to R; got = <<stream, bytes>> runs handed
                     to R's application; sent = messages R emitted
            radjust  R's application grants ev.n more bytes of window
@@ -92,7 +93,13 @@ Observe(o, c, ev) ==
                o3 == IF ev.m[1] = "A" THEN [o2 EXCEPT !.credit = @ + ev.m[2]]
                      ELSE IF ev.m[1] = "C" THEN [o2 EXCEPT !.closeReq = TRUE]     \* SSHChannel.closeReceived requests the close
                      ELSE o2
-           IN Settle(SendAll(o3, c, ev.sent))
+               \* an application call issued from the channel's startWriting() callback (before anything is flushed)
+               o4 == IF ev.hook = <<>> THEN o3
+                     ELSE IF ev.hook[1] = "write"
+                     THEN [Flag(o3, o3.closeReq \/ ev.hook[2] \notin 0..2, "harness-write-after-close")
+                             EXCEPT !.written[ev.hook[2] + 1] = @ + ev.hook[3]]
+                     ELSE [o3 EXCEPT !.closeReq = TRUE]
+           IN Settle(SendAll(o4, c, ev.sent))
       [] ev.e = "rdeliver" ->
            LET ok == o.qSR # <<>> /\ Head(o.qSR) = ev.m
                o1 == Flag(o0, ~ok, "harness-fifo")
